@@ -941,7 +941,7 @@ func (g *heapGen) args(h *heapRun, op string, recv int, o *obj) *Step {
 		if !needAl() || n == 0 || L < 1 {
 			return nil
 		}
-		qs := []string{"fasta", "phylip", "nexus", "clustal", "stockholm", "paml", "dist", "sw", "swatg", "swatg", "orf", "string", "protdist", "protdist2", "phaseref", "phasentref"}
+		qs := []string{"fasta", "fastaseq", "phylip", "nexus", "clustal", "stockholm", "paml", "dist", "sw", "swatg", "swatg", "orf", "string", "protdist", "protdist2", "phaseref", "phasentref"}
 		a["q"] = qs[g.rng.Intn(len(qs))]
 		a["other"] = f64(1 + g.rng.Intn(len(h.objs)))
 	default:
